@@ -72,9 +72,69 @@ def buildOp (j : Json) : R Json := do
       | _ => []
     return Json.mkObj (fields ++ stats)
 
+/-- op `c16.ctor`: the constructors called directly — `which` = "sum" | "prod" on the operands obtained by building
+the expressions `a` and `b` (`mkSum` / `mkProd`); the specification side is `a + b` / `a * b` evaluated on the leaf
+values. -/
+def ctorRun {α : Type} [Add α] [Mul α] [Neg α] [Sub α] [Zero α] [One α] [Inhabited α]
+    (num : Json → R α) (out : α → Json) (j : Json) : R Json := do
+  let ea ← parseExpr num (← fld j "a")
+  let eb ← parseExpr num (← fld j "b")
+  let which ← jStr (← fld j "which")
+  let valsJ ← jArr (← fld j "vals")
+  let vals ← valsJ.mapM (fun row => do (← jArr row).mapM num)
+  let B ← jNat (← fld j "batch")
+  let batch : List (Nat → α) := (List.range B).map (fun s => fun i => (vals.getD i #[]).getD s default)
+  match build ea, build eb with
+  | .error err, _ => return Json.mkObj [("operand_error", .str err.toString)]
+  | _, .error err => return Json.mkObj [("operand_error", .str err.toString)]
+  | .ok va, .ok vb =>
+    let spec : Expr α := if which == "sum" then .add ea eb else .mul ea eb
+    match (if which == "sum" then mkSum va vb else mkProd va vb) with
+    | .error err => return Json.mkObj [("error", .str err.toString)]
+    | .ok o =>
+      return Json.mkObj [("tree", obsOut out o), ("apply", .arr ((o.applyBatch batch).toArray.map out)),
+        ("apply1", out (o.apply (fun i => (vals.getD i #[]).getD 0 default))),
+        ("eval", .arr ((evalBatch spec batch).toArray.map out))]
+
+def ctorOp (j : Json) : R Json := do
+  let carrier ← jStr (← fld j "carrier")
+  if carrier == "int" then ctorRun (α := Int) jInt iOut j else ctorRun (α := Float) jFloat fOut j
+
+/-- op `c16.statistics`: `statistics()` of the composite built from `expr` on a recorded run (fields of
+`c13.statistics`'s run description): `vals[d][i][s]` = value of leaf `i` at chain `s` of the state returned by sampler
+call `d`. Runs `Obs.statistics` = the C13 streaming model on the composite's `applyBatch`. -/
+def statisticsOp (j : Json) : R Json := do
+  let e ← parseExpr jFloat (← fld j "expr")
+  let (env, args) ← Drv.C13.parseRun j
+  let valsJ ← jArr (← fld j "vals")
+  let vals ← valsJ.mapM (fun d => do (← jArr d).mapM jFloatArr)
+  let leaves : Drv.C13.DS → List (Nat → Float) := fun st =>
+    if st.draw == 0 then [] else
+      let d := vals.getD (st.draw - 1) #[]
+      let B := (d.getD 0 #[]).size
+      (List.range B).map (fun s => fun i => (d.getD i #[]).getD s 0.0)
+  let setup := Stats.chainSetup env args
+  let hdr : List (String × Json) := [("c", nOut setup.2),
+    ("T", match Stats.numTimeSteps args.numSamples setup.2 with | .ok T => nOut T | .error err => errOut err)]
+  match build e with
+  | .error err => return Json.mkObj (hdr ++ [("error", .str err.toString)])
+  | .ok (.scal _ _) => return Json.mkObj (hdr ++ [("error", .str "scalar")])
+  | .ok (.obs o) =>
+    let all : List Float := ((List.range vals.size).map (fun d => evalBatch e (leaves ⟨0, d + 1⟩))).flatten
+    let one : Json := match Stats.fromSamples all with
+      | .ok s => Drv.C13.statOut s
+      | .error err => errOut err
+    match o.statistics env leaves args with
+    | .error err => return Json.mkObj (hdr ++ [("result", errOut err), ("onepass", one)])
+    | .ok (s, tr) =>
+      return Json.mkObj (hdr ++ [("result", Drv.C13.statOut s), ("onepass", one),
+        ("calls", .arr (tr.toArray.map Drv.C13.callOut))])
+
 def handle (op : String) (j : Json) : Option (R Json) :=
   match op with
   | "c16.build" => some (buildOp j)
+  | "c16.ctor" => some (ctorOp j)
+  | "c16.statistics" => some (statisticsOp j)
   | _ => none
 
 end Drv.C16
